@@ -74,6 +74,8 @@ pub enum Act {
     TriggerMutation(EntRef, u8),
     Remove(EntRef, u8),
     DespawnEnt(EntRef),
+    /// `AutoDespawner::prepare(entity)` + immediate drop of the signal
+    AutoDespawnEnt(EntRef),
     RespawnEnt(u8),
     ResAccess(u8, How, u32),
     ResTrigger(u8),
@@ -119,6 +121,7 @@ impl Act {
             Act::TriggerMutation(..) => "TriggerMutation",
             Act::Remove(..) => "Remove",
             Act::DespawnEnt(_) => "DespawnEnt",
+            Act::AutoDespawnEnt(_) => "AutoDespawnEnt",
             Act::RespawnEnt(_) => "RespawnEnt",
             Act::ResAccess(..) => "ResAccess",
             Act::ResTrigger(_) => "ResTrigger",
@@ -484,7 +487,13 @@ pub fn gen_act(r: &mut Rng, p: &Profile) -> Act {
         6 => Act::Access(gen_entref(r, p), t, gen_how(r), r.below(3) as u32),
         7 => Act::TriggerMutation(gen_entref(r, p), t),
         8 => Act::Remove(gen_entref(r, p), t),
-        9 => Act::DespawnEnt(gen_entref(r, p)),
+        9 => {
+            if r.chance(25) {
+                Act::AutoDespawnEnt(gen_entref(r, p))
+            } else {
+                Act::DespawnEnt(gen_entref(r, p))
+            }
+        }
         10 => Act::RespawnEnt(r.below(NE) as u8),
         11 => Act::ResAccess(t, gen_how(r), r.below(3) as u32),
         12 => Act::ResTrigger(t),
